@@ -9,9 +9,10 @@ import Astral.Model.Num
 -/
 namespace Astral
 
-abbrev Date := Int
-abbrev Instant := Int
-abbrev Zone := Instant → Int
+-- notations, not abbreviations: the types must be *syntactically* `Int` for `omega`
+notation "Date" => Int
+notation "Instant" => Int
+abbrev Zone := Int → Int
 
 def usPerDay : Int := 86400000000
 def usPerHour : Int := 3600000000
